@@ -28,7 +28,7 @@ LEVEL_TEXT = ('For partially_occluded and raytracing: every world cell reported 
 LEVEL_NOTE = ('Trusted: refmodel.view_to_world (decided by C05) to relate world and view cells; the ray fan itself is the '
               'subject of C19. Only the built-in raytracing threshold (1, absolute counts) is claimed. rng.random()==0.0 ignored.')
 SHARDS = {'quick': 4, 'thorough': 16}
-BUDGET_S = {'quick': 60, 'thorough': 900}
+BUDGET_S = {'quick': 300, 'thorough': 2400}
 RULE = ('case = (state, area, function) with its perturbed twins. non-trivial = at least one in-grid cell of the view is '
         'hidden by occlusion; distinct by (function, area, deep state encoding) resp. opacity pattern.')
 ASSUMPTIONS = ['visibility read off the observation: a view cell is visible iff it is not Hidden']
